@@ -53,4 +53,17 @@ Shape(n) ==
     [] n.t = "nil"  -> [t |-> "nil"]
     [] n.t = "stk"  -> [t |-> "stk", k |-> n.k, paren |-> n.paren, e |-> [i \in 1..Len(n.e) |-> Shape(n.e[i])]]
     [] n.t = "cnd"  -> [t |-> "cnd", kw |-> n.kw, op |-> n.op, ex |-> Shape(n.ex)]
+
+\* what every Stack and Condition node of a tree answers about its own size (preorder):
+\* Stack.Len / IsNesting / IsEmpty, Condition.Len / IsNesting.  A Condition holding a Stack
+\* (in ANY form: native, alias, pointer) has that Stack's length; holding anything else, 1; nothing, 0.
+TrB2S(b) == IF b THEN "true" ELSE "false"
+RECURSIVE Measure(_), MeasureSeq(_)
+MeasureSeq(es) == IF es = <<>> THEN <<>> ELSE Measure(Head(es)) \o MeasureSeq(Tail(es))
+Measure(n) ==
+  CASE n.t = "stk" -> <<[t |-> "stk", len |-> Len(n.e), nesting |-> TrB2S(\E i \in 1..Len(n.e) : n.e[i].t = "stk"),
+                         empty |-> TrB2S(Len(n.e) = 0)]>> \o MeasureSeq(n.e)
+    [] n.t = "cnd" -> <<[t |-> "cnd", len |-> IF n.ex.t = "stk" THEN Len(n.ex.e) ELSE IF n.ex.t = "nil" THEN 0 ELSE 1,
+                         nesting |-> TrB2S(n.ex.t = "stk"), empty |-> "n/a"]>> \o Measure(n.ex)
+    [] OTHER -> <<>>
 =============================================================================
